@@ -1,13 +1,13 @@
 SPECIFICATION Spec
 CONSTANTS
   Arity = 2
-  NVs = {4}
+  NVs = {3}
   MinCells = 0
   MaxCells = 2
   AnyOrientation = FALSE
   InitData = {"full"}
   MaxData = 2
-  MaxIx = 2
+  MaxIx = 3
   MaxDepth = 2
   CellMask = TRUE
   Valueless = TRUE
